@@ -159,11 +159,24 @@ func convertSchema(s string, t *VirtualTable) error {
 		return fmt.Errorf("sqlite vtable primary key cannot be composite")
 	}
 	columnMap := map[string]struct{}{}
+	foldedNames := map[string]struct{}{}
 	for i := range schema.Columns {
 		name := schema.Columns[i].Name
 		if _, ok := columnMap[name]; ok {
 			return fmt.Errorf("duplicate column: %s", name)
 		}
+		// SQLite column names are case-insensitive: it would refuse the
+		// declaration, but only after the storage has been opened
+		folded := strings.Map(func(r rune) rune {
+			if 'A' <= r && r <= 'Z' {
+				return r + 'a' - 'A' // ASCII only, as SQLite folds
+			}
+			return r
+		}, name)
+		if _, ok := foldedNames[folded]; ok {
+			return fmt.Errorf("duplicate column: %s", name)
+		}
+		foldedNames[folded] = struct{}{}
 		columnMap[schema.Columns[i].Name] = struct{}{}
 	}
 	t.usesRowID = true
